@@ -82,9 +82,13 @@ def render(items, rnd, shift=0):
             tab = 0
         else:   # row
             if nt:
+                out += fill(pre, True, "", "      ")
+                if it.get("et") == 1:                       # heading-only Examples table in front
+                    tab += 1
+                    out.append("      Examples: todo")
+                    out.append("        | x |")
                 tab += 1
                 row = 0
-                out += fill(pre, True, "", "      ")
                 out.append("      Examples: %s" % ("tab" if tab % 2 else "tob"))
                 out.append("        | x |")
             else:
@@ -92,6 +96,10 @@ def render(items, rnd, shift=0):
             row += 1
             out.append("        | v%d%d |" % (tab, row))
             ent_lines.append(len(out))
+            if it.get("et") == 2:                           # heading-only Examples table after the last row
+                tab += 1
+                out.append("      Examples: todo")
+                out.append("        | x |")
     return "\n".join(out) + "\n", ent_lines, len(out)
 
 
@@ -424,6 +432,9 @@ def build_jobs(chk, layouts, lists, names, scratch):
     # 5. name selection (every TLC name case on a rotating layout with at least three scenarios)
     rich = [c for c in layouts if sum(1 for e in c["E"] if e["k"] in ("scenario", "row")) >= 3] or layouts
     picks = [rnd.choice(rich) for _ in range(16 if quick else 120)]
+    todo = [c for c in rich if any(it["et"] for it in c["items"])]      # ... half of them with a heading-only table
+    if todo:
+        picks[::2] = [rnd.choice(todo) for _ in picks[::2]]
     for n, case in enumerate(names):
         add({"kind": "name", "case": picks[n % len(picks)], "shift": n % len(NAMES), "pats": case["pats"],
              "texts": ["".join(t) for t in case["texts"]]})
